@@ -336,7 +336,12 @@ func (l *Lexer) advanceChar() (rune, bool) {
 	char, size := l.nextChar()
 
 	l.cursor += size
-	l.column += 1
+	if char == '\n' {
+		l.line += 1
+		l.column = 1
+	} else {
+		l.column += 1
+	}
 	return char, true
 }
 
@@ -370,9 +375,6 @@ func (l *Lexer) swallowUntil(char rune) bool {
 		ch, ok := l.advanceChar()
 		if !ok {
 			return false
-		}
-		if ch == '\n' {
-			l.incrementLine()
 		}
 		if ch == char {
 			break
@@ -544,14 +546,12 @@ func (l *Lexer) skipToken() {
 
 // Swallow consecutive newlines and wrap them into a single token.
 func (l *Lexer) foldNewLines() {
-	l.incrementLine()
 	l.swallowNewLines()
 }
 
 // Swallow consecutive newlines.
 func (l *Lexer) swallowNewLines() {
 	for l.matchChar('\n') || (l.matchChar('\r') && l.matchChar('\n')) {
-		l.incrementLine()
 	}
 }
 
@@ -611,7 +611,6 @@ charLoop:
 		if !nonIndentChars && char == ' ' || char == '\t' {
 			indent += 1
 		} else if l.isNewLine(char) {
-			l.incrementLine()
 			docStrLines = append(docStrLines, lineBuffer.String())
 			lineBuffer.Reset()
 			if nonIndentChars && indent < leastIndented {
@@ -697,7 +696,6 @@ charLoop:
 		if !nonIndentChars && char == ' ' || char == '\t' {
 			indent += 1
 		} else if l.isNewLine(char) {
-			l.incrementLine()
 			docStrLines = append(docStrLines, lineBuffer.String())
 			lineBuffer.Reset()
 			if nonIndentChars && indent < leastIndented {
@@ -764,10 +762,6 @@ charLoop:
 					break charLoop
 				}
 			}
-		default:
-			if l.isNewLine(char) {
-				l.incrementLine()
-			}
 		}
 	}
 
@@ -798,10 +792,6 @@ charLoop:
 					break charLoop
 				}
 			}
-		default:
-			if l.isNewLine(char) {
-				l.incrementLine()
-			}
 		}
 	}
 
@@ -821,9 +811,6 @@ func (l *Lexer) rawString() *token.Token {
 		if char == '\'' {
 			break
 		}
-		if char == '\n' {
-			l.incrementLine()
-		}
 		result.WriteRune(char)
 	}
 
@@ -841,9 +828,6 @@ func (l *Lexer) rawQuotedIdentifier() *token.Token {
 		}
 		if char == '\'' {
 			break
-		}
-		if char == '\n' {
-			l.incrementLine()
 		}
 		result.WriteRune(char)
 	}
@@ -863,9 +847,6 @@ func (l *Lexer) rawQuotedConstant() *token.Token {
 		if char == '\'' {
 			break
 		}
-		if char == '\n' {
-			l.incrementLine()
-		}
 		result.WriteRune(char)
 	}
 
@@ -883,9 +864,6 @@ func (l *Lexer) rawQuotedInstanceVariable() *token.Token {
 		}
 		if char == '\'' {
 			break
-		}
-		if char == '\n' {
-			l.incrementLine()
 		}
 		result.WriteRune(char)
 	}
@@ -971,9 +949,6 @@ func (l *Lexer) character() *token.Token {
 				return l.lexError(invalidHexEscapeError)
 			}
 			lexemeBuff.WriteByte(byte(value))
-		case '\n':
-			l.incrementLine()
-			fallthrough
 		default:
 			l.matchChar(charTerminator)
 			return l.lexError("invalid escape sequence in a character literal")
@@ -1253,13 +1228,10 @@ func (l *Lexer) quotedIdentifier(invalidMode mode, tokenType token.Type, untermi
 			return l.tokenWithValue(tokenType, lexemeBuff.String())
 		}
 
+		escCursor, escColumn, escLine := l.cursor, l.column, l.line
 		char, ok := l.advanceChar()
 		if !ok {
 			return l.lexError(unterminatedError)
-		}
-
-		if char == '\n' {
-			l.incrementLine()
 		}
 
 		if char != '\\' {
@@ -1333,13 +1305,10 @@ func (l *Lexer) quotedIdentifier(invalidMode mode, tokenType token.Type, untermi
 				return l.lexError(invalidHexEscapeError)
 			}
 			lexemeBuff.WriteByte(byte(value))
-		case '\n':
-			l.incrementLine()
-			fallthrough
 		default:
 			l.pushMode(invalidMode)
 			l.pushMode(invalidEscapeMode)
-			l.backupChars(2)
+			l.cursor, l.column, l.line = escCursor, escColumn, escLine
 			return l.tokenWithValue(tokenType, lexemeBuff.String())
 		}
 	}
@@ -1384,9 +1353,6 @@ func (l *Lexer) scanWordCollectionLiteral(terminatorToken token.Type) *token.Tok
 		if unicode.IsSpace(peek) {
 			if !nonSpaceCharEncountered {
 				l.advanceChar()
-				if peek == '\n' {
-					l.incrementLine()
-				}
 				l.skipToken()
 				continue
 			}
@@ -1430,9 +1396,6 @@ func (l *Lexer) scanIntCollectionLiteral(terminatorToken token.Type, digitSet st
 		if unicode.IsSpace(peek) {
 			if !nonSpaceCharEncountered {
 				l.advanceChar()
-				if peek == '\n' {
-					l.incrementLine()
-				}
 				l.skipToken()
 				continue
 			}
@@ -1560,13 +1523,10 @@ func (l *Lexer) scanStringLiteralContent() *token.Token {
 			return l.tokenWithValue(token.STRING_CONTENT, lexemeBuff.String())
 		}
 
+		escCursor, escColumn, escLine := l.cursor, l.column, l.line
 		char, ok := l.advanceChar()
 		if !ok {
 			return l.lexError(unterminatedStringError)
-		}
-
-		if char == '\n' {
-			l.incrementLine()
 		}
 
 		if char != '\\' {
@@ -1637,12 +1597,9 @@ func (l *Lexer) scanStringLiteralContent() *token.Token {
 				return l.lexError(invalidHexEscapeError)
 			}
 			lexemeBuff.WriteByte(byte(value))
-		case '\n':
-			l.incrementLine()
-			fallthrough
 		default:
 			l.pushMode(invalidEscapeMode)
-			l.backupChars(2)
+			l.cursor, l.column, l.line = escCursor, escColumn, escLine
 			return l.tokenWithValue(token.STRING_CONTENT, lexemeBuff.String())
 		}
 	}
@@ -1763,10 +1720,6 @@ func (l *Lexer) scanRegexLiteralContent() *token.Token {
 			return l.lexError(unterminatedRegexError)
 		}
 
-		if char == '\n' {
-			l.incrementLine()
-		}
-
 		if char != '\\' {
 			lexemeBuff.WriteRune(char)
 			continue
@@ -1780,7 +1733,6 @@ func (l *Lexer) scanRegexLiteralContent() *token.Token {
 		case '/':
 			lexemeBuff.WriteString(`\/`)
 		case '\n':
-			l.incrementLine()
 			fallthrough
 		default:
 			lexemeBuff.WriteRune('\\')
@@ -1866,7 +1818,6 @@ loop:
 			l.pushMode(embellishedBacktickMode)
 			break loop
 		case '\n':
-			l.incrementLine()
 		}
 		result.WriteRune(char)
 	}
@@ -2425,11 +2376,6 @@ func (l *Lexer) isNewLine(char rune) bool {
 }
 
 // Increments the line number and resets the column number.
-func (l *Lexer) incrementLine() {
-	l.line += 1
-	l.column = 1
-}
-
 // Returns the current token value.
 func (l *Lexer) tokenValue() string {
 	return string(l.source[l.start:l.cursor])
